@@ -42,7 +42,10 @@ class PureFunction(object):
         pass
 
     def objparams(self) -> List:
-        return self._cur_objparams
+        # return a copy: the caller may store the list and change its elements
+        # (e.g. a LinearOperator substituting its parameters in place), which
+        # must not change what this object regards as the current parameters
+        return list(self._cur_objparams)
 
     def set_objparams(self, objparams: List):
         # TODO: check if identical with current object parameters
